@@ -15,7 +15,7 @@ from vf.probes import ProbeLog, Spec, build_instance, EXC_CLASSES, UserError, Un
 class Fixture(object):
     """A real SimpleJSONRPCDispatcher (or server) built from a RegModel."""
 
-    def __init__(self, reg, version=2.0, use_jsonclass=True, pool=None, config=None):
+    def __init__(self, reg, version=2.0, use_jsonclass=True, pool=None, config=None, extra=None):
         import jsonrpclib.config
         from jsonrpclib.SimpleJSONRPCServer import SimpleJSONRPCDispatcher
         self.reg = reg
@@ -24,6 +24,7 @@ class Fixture(object):
         self.config = config or jsonrpclib.config.Config(version=version, use_jsonclass=use_jsonclass)
         self.dispatcher = SimpleJSONRPCDispatcher(config=self.config)
         self.custom = None
+        self.extra = dict(extra or {})     # plain functions registered by name on every dispatcher/server of this fixture
         self.install(self.dispatcher)
         if pool is not None:
             self.dispatcher.set_notification_pool(pool)
@@ -31,6 +32,8 @@ class Fixture(object):
 
     def install(self, dispatcher):
         reg, log = self.reg, self.log
+        for name, fn in self.extra.items():
+            dispatcher.register_function(fn, name)
         table = {name: spec.build(log) for name, spec in reg.funcs.items()}
         self.table = table
         if reg.mode == "default":
